@@ -384,6 +384,11 @@ func (ds *DataStoreSet) updateDeltaHostsServices(ctx context.Context, tableName 
 }
 
 func (ds *DataStoreSet) insertDeltaDataResult(dataOffset int, res ResultSet, resMeta *ResultMetaData, table *DataStore) (err error) {
+	// one update of a table at a time (update loop, WaitCondition and spin-up goroutines): the update set is
+	// prepared from the cached rows before the table is locked, it must not be outdated when it is applied
+	table.updateLock.Lock()
+	defer table.updateLock.Unlock()
+
 	updateType := "delta"
 	time1 := time.Now()
 	updateSet, err := table.prepareDataUpdateSet(dataOffset, res, table.dynamicColumnCache)
